@@ -10,7 +10,7 @@ from ..compare import same
 from ..objgen import U
 from .c08 import zoo
 
-REQUIRED = ["skeleton_inner", "skeleton_main", "failed_convert_untouched", "converted"]
+REQUIRED = ["skeleton_inner", "skeleton_main", "failed_convert_untouched", "converted", "default_output_name", "default_output_name_no_suffix"]
 OLD = b"previous content of the output path"
 OUTPUTS = ["absent", "relative", "nested", "absolute", "missingdir"]
 
